@@ -5,10 +5,11 @@
 set -u
 patch=$1; shift
 props=${*:-C01 C03 C08 C09 C15 C17 C18}
-M=/tmp/mut
+M=${MUTDIR:-/tmp/mut}
 mkdir -p $M/sim $M/replays
-rsync -a --delete --exclude target --exclude 'target-build-*' /verif/sim/ $M/sim/ 
-sed -i 's|path = "/repo"|path = "/tmp/mut/repo"|' $M/sim/Cargo.toml
+rsync -a --delete --exclude target --exclude "target-build-*" ${SIMSRC:-/verif/sim}/ $M/sim/
+sed -i "s|path = \"/repo\"|path = \"$M/repo\"|" $M/sim/Cargo.toml
+[ -d $M/repo ] || git -C /repo worktree add -q --detach $M/repo HEAD
 git -C $M/repo checkout -q -- . && git -C $M/repo clean -fdq
 git -C $M/repo checkout -q --detach $(git -C /repo rev-parse HEAD) 2>/dev/null
 if [ "$patch" != none ]; then git -C $M/repo apply "$patch" || { echo "patch does not apply"; exit 2; }; fi
